@@ -62,7 +62,9 @@ def _define_lut_func(partitions):
     @_nb.vectorize([_nb.int32(_nb.uint8), _nb.int32(_nb.uint16), _nb.int32(_nb.uint32),
                     _nb.int32(_nb.int8), _nb.int32(_nb.int16), _nb.int32(_nb.int32)])
     def _lut_function(x):
-        return lut[x]
+        # The table has a limited size: read it only within its bounds, and check the value found there.
+        index = lut[x] if -len(lut) <= x < len(lut) else -1
+        return index if index != -1 and partitions[index] == x else -1
 
     return _lut_function
 
